@@ -81,3 +81,13 @@ func (db *DB) verifAlloc(txid common.Txid, pgid common.Pgid, n int, fromFree boo
 		"hwm": uint64(db.rwtx.meta.Pgid()), "datasz": db.datasz,
 	})
 }
+
+// verifRefused reports an allocation refused by the MaxSize pre-check.
+func (db *DB) verifRefused(txid common.Txid, n int) {
+	if !common.VerifTracing() {
+		return
+	}
+	common.VerifEvent(db, "AllocRefused", map[string]any{
+		"txid": uint64(txid), "n": n, "hwm": uint64(db.rwtx.meta.Pgid()), "datasz": db.datasz,
+	})
+}
